@@ -109,8 +109,10 @@ def install(engine):
     engine.overrides[lark.visitors.Interpreter._visit_tree] = _visit_tree_override
 
 
-def rule_contract(method, shape, args, name, ret, exc=None, functions=None, **kw):
-    """Contract for Evaluator.<method> applied to a mock node of the given shape."""
+def rule_contract(method, shape, args, name, ret, exc=None, functions=None, native_ok=True, **kw):
+    """Contract for Evaluator.<method> applied to a mock node of the given shape.
+    native_ok=False: no CPython cross-check (nested mock nodes: an error value created for an inner mock node carries that
+    node, and repr() of it - used in logical_and's TypeError text - dumps the node, which a stub child cannot be)."""
     def invoke(run, S):
         install(run.engine)
         S.self_ = sym_evaluator(run, functions)
@@ -122,7 +124,7 @@ def rule_contract(method, shape, args, name, ret, exc=None, functions=None, **kw
         e = StubEvaluator(t, ev.Activation(functions=functions))
         return getattr(e, method)(t)
 
-    return V.Contract(f"celpy.evaluation:Evaluator.{method}", args, name=name, invoke=invoke, native=native,
+    return V.Contract(f"celpy.evaluation:Evaluator.{method}", args, name=name, invoke=invoke, native=native if native_ok else False,
                       ret=ret, exc=exc or {}, **kw)
 
 
